@@ -8,6 +8,7 @@
 From Coq Require Import Reals List NArith.
 From Coquelicot Require Import Complex.
 From QV Require Import Sem Mat2 Chain UcgLevels.
+From QV Require UcgPreserve.
 Import ListNotations.
 
 Theorem C12_level_step : forall (tb : nat -> bool) (k : nat) (f : asg -> mat2) (d : asg -> C) (c p : state),
@@ -21,3 +22,21 @@ Theorem C12_levels_target : forall (tb : nat -> bool) (n : nat) (ls : list ((asg
   forall b, levels 0 ls c b = if N.eqb b (tidx tb n) then last_children ls c b else RtoC 0.
 Proof. exact levels_target. Qed.
 Print Assumptions C12_levels_target.
+
+(* the preserve option: in preserve mode level k applies  f' b = if the qubits above k hold the target bits then (if the qubits below
+   k do too then gp k else 1) else mux k b.  If (a) every mux k is the identity wherever the qubits above k spell a number below the
+   target's and (b) gp k sends |0> to a multiple of |0> whenever target bit k is 1 - both consequences of the vector vanishing below
+   the target index, checked on the matrices of every run - then every basis state below the target index is mapped to itself times
+   the product of the carried phases and diagonal entries, for every number of qubits. *)
+Theorem C12_preserve_below_target : forall (tb : nat -> bool) (n : nat) (ms : list ((asg -> mat2) * mat2 * (asg -> C))) (k h : nat)
+  (b : asg) (s : C), (k + length ms <= n)%nat -> UcgPreserve.below_t tb n h b -> UcgPreserve.pres_ok tb n k ms ->
+  levels k (UcgPreserve.plevels tb n k ms) (UcgPreserve.bs s b)
+  = UcgPreserve.bs (s * UcgPreserve.pfac k (UcgPreserve.plevels tb n k ms) b)%C b.
+Proof. exact UcgPreserve.preserve_below_target. Qed.
+Print Assumptions C12_preserve_below_target.
+
+(* any basis state on which every level's gate has a diagonal column stays itself up to the product of those entries and phases *)
+Theorem C12_levels_keep_basis : forall (ls : list ((asg -> mat2) * (asg -> C) * state)) (k : nat) (s : C) (b : asg),
+  UcgPreserve.cols_ok k ls b -> levels k ls (UcgPreserve.bs s b) = UcgPreserve.bs (s * UcgPreserve.pfac k ls b)%C b.
+Proof. exact UcgPreserve.levels_keep_basis. Qed.
+Print Assumptions C12_levels_keep_basis.
